@@ -312,7 +312,8 @@ impl PrimalSimplex {
                 .enumerate()
                 .filter(|(_, rc)| **rc < -self.config.optimality_tol)
                 .min_by(|(_, a), (_, b)| a.partial_cmp(b).unwrap())
-                .map(|(idx, _)| idx)
+                // reduced costs are indexed by non-basic position, not by variable
+                .map(|(idx, _)| phase1_basis.nonbasic[idx])
             {
                 if phase1_iterations == 0 {
                     lp_debug!("SIMPLEX Phase I: Found entering variable: {}", idx);
